@@ -385,12 +385,21 @@ func scenarioC16S(x *runner.X) {
 		if _, err := rd.ReadAt(got, 0); err != nil && err != io.EOF {
 			rdErr = err
 		}
+		// the true end: the pieces carry nodes of their own behind the content, which are not part
+		// of the reassembled CAR
+		over := make([]byte, contentEnd+64)
+		if n, err := rd.ReadAt(over, 0); n != contentEnd || err != io.EOF {
+			wrong = fmt.Sprintf("a read of %d bytes at 0 across the end (%d) returns n=%d err=%v", len(over), contentEnd, n, err)
+		}
+		if n, err := rd.ReadAt(over[:16], int64(contentEnd)); n != 0 || err != io.EOF {
+			wrong = fmt.Sprintf("a read at the end (%d) returns n=%d err=%v, want 0 and EOF", contentEnd, n, err)
+		}
 		if s := dsim.Active(); s != nil {
 			s.Quiesce()
 		}
 	})
 	if wrong != "" {
-		fail("a read through the split-CAR reader over the written pieces returns wrong bytes", "%s", wrong)
+		fail("a read through the split-CAR reader over the written pieces returns wrong bytes or a wrong end", "%s", wrong)
 		return
 	}
 	if rdErr != nil || !bytes.Equal(got, w.CAR[:contentEnd]) {
